@@ -552,6 +552,42 @@ def entry_history(ctx, rng):
              sample={"kind": "entry-history", "entry": f"{cfg['integration']}:{cfg['entry']}", "sizes": list(cfg["preset"]), "evictions": ev})
 
 
+def reader_history(ctx, rng):
+    """Histories seen from the READER side: streams of an independent producer that repeats its (identical) options row
+    in later frames - often as the first row of a frame - while its tables and delta state simply carry on, as the format
+    says.  Both integrations' readers must keep their tables across those rows."""
+    from . import c04
+    from .. import refenc
+    import dataclasses
+
+    phys, events, options, policy, _delim = c04.make_case(rng, "rdf11", 25)
+    policy = dataclasses.replace(policy, p_options_repeat=rng.choice([.3, .6]), frame_cut=rng.choice(["each", "fixed", "random"]),
+                                 frame_size=rng.choice([1, 2, 3]), p_empty_frame=0.0)
+    try:
+        pr = refenc.produce(rng, events, options, policy, True)
+    except (refenc.ProducerError, refenc.InternalProducerError):
+        ctx.observe("reader-history-producer-declined")
+        return
+    frames = wire_frames(pr.data)
+    later_options = sum(1 for f in frames[1:] if f["rows"] and f["rows"][0][0] == "options")
+    ctx.observe("reader-histories")
+    if later_options:
+        ctx.observe("reader-histories-with-options-row-opening-a-later-frame")
+    w = c04.check_parsers("rdf11", pr, entries=("flat", "grouped"))
+    if w is not None:
+        ctx.violation({"clause": "reader-history:" + w["clause"], "kind": "walk", "sizes": [options["max_name_table_size"],
+                       options["max_prefix_table_size"], options["max_datatype_table_size"]], "mode": "reader",
+                       "bytes": pr.data.hex(),
+                       "summary": f"stream with {later_options} later frames opening with a repeated options row: " + w["summary"]})
+    ctx.case(("reader", gen.case_hash(pr.data)), later_options > 0,
+             sample={"kind": "reader-history", "frames": len(frames), "later_frames_opening_with_options": later_options})
+
+
+def wire_frames(data: bytes):
+    from .. import wire
+    return wire.dec_stream(data, True)
+
+
 def _walk_violation(ctx, b: Broken, sizes, mode, hist):
     ctx.violation({"clause": b.clause, "kind": "walk", "sizes": list(sizes), "mode": mode,
                    "history_tail": [list(h) for h in hist],
@@ -591,6 +627,8 @@ def run_shard(ctx):
             interrupted_history(ctx, ctx.rng("interrupted", i, k))
         for k in range(60):
             entry_history(ctx, ctx.rng("entry", i, k))
+        for k in range(40):
+            reader_history(ctx, ctx.rng("reader", i, k))
         row_walk(ctx, ctx.rng("rows", i), row_sizes, 3_000 if ctx.tier == "quick" else 30_000,
                  max(ctx.deadline, time.monotonic() + 2))
         i += 1
